@@ -8,10 +8,15 @@ W=$PWD/.work/litmus-$$
 mkdir -p "$W" evidence
 trap 'rm -rf "$W"' EXIT
 [ -x bin/vinstr ] || go build -o bin/vinstr ./cmd/vinstr
-go build -o "$W/real.bin" ./checks/litmus
+go build -trimpath -o "$W/real.bin" ./checks/litmus
 "$W/real.bin" -out "$W/real.json" -iters "${LITMUS_ITERS:-1500}"
-bin/vinstr -root "$PWD" -work "$W/inst" -harness ./checks/litmus . >/dev/null
-go build -tags verif -overlay "$W/inst/overlay.json" -o "$W/model.bin" ./checks/litmus
+# stable instrumentation directory + -trimpath: re-runs hit the go build cache (see ./check)
+I=$PWD/.work/inst-litmus
+mkdir -p "$I"; exec 9> "$I.lock"; flock 9
+rm -rf "$I/inst"
+bin/vinstr -root "$PWD" -work "$I/inst" -harness ./checks/litmus . >/dev/null
+go build -trimpath -tags verif -overlay "$I/inst/overlay.json" -o "$W/model.bin" ./checks/litmus
+rm -rf "$I/inst"; flock -u 9; exec 9>&-
 "$W/model.bin" -real "$W/real.json" | tee "$W/out.txt"
 rc=${PIPESTATUS[0]}
 tail -1 "$W/out.txt" > evidence/litmus.txt
